@@ -45,7 +45,7 @@ def table_coq(c):
     for r in c["routes"]:
         dests = ["{| d_matcher := %s; d_addr := %s |}" % (matcher_coq(d["m"]), cbytes(d["addr"])) for d in r.get("dests", [])]
         routes.append("{| r_kind := %s; r_matcher := %s; r_dests := %s |}" % (KIND[r["kind"]], matcher_coq(r["m"]), clist(dests, "dest")))
-    aggs = ["{| a_matcher := %s; a_dropraw := %s |}" % (matcher_coq(a["m"]), cbool(a["dropraw"])) for a in c.get("aggs", [])]
+    aggs = ["{| a_matcher := %s; a_dropraw := %s; a_outfmt := %s |}" % (matcher_coq(a["m"]), cbool(a["dropraw"]), cbytes(a["outfmt"])) for a in c.get("aggs", [])]
     return ("{| t_ll := %s; t_lm := %s; t_order := %s; t_blacklist := %s; t_rewriters := %s; t_aggs := %s; t_routes := %s |}"
             % (LL[c["ll"]], LM[c["lm"]], cbool(c.get("order", False)),
                clist([matcher_coq(m) for m in c.get("blacklist", [])], "matcher"),
@@ -72,8 +72,11 @@ def case_coq(c, obs, mask):
     for ev, o in zip(c["events"], obs["events"]):
         con = "ELine" if ev["t"] == "line" else "EAgg"
         evs.append(ctuple("%s %s" % (con, cbytes(bytes.fromhex(ev["b"]))), ev_obs_coq(o)))
-    return ("{| tc_mask := %s; tc_table := %s; tc_events := %s; tc_mutated := %s |}"
-            % (cN(mask), table_coq(c), clist(evs, "(event * ev_obs)"), cbool(obs.get("mutated", False))))
+    keys = None
+    if c.get("stall_aggs"):
+        keys = clist([cbytes(bytes.fromhex(k)) for k in obs.get("agg_keys") or []], "bytes")
+    return ("{| tc_mask := %s; tc_table := %s; tc_events := %s; tc_mutated := %s; tc_agg_keys := %s |}"
+            % (cN(mask), table_coq(c), clist(evs, "(event * ev_obs)"), cbool(obs.get("mutated", False)), copt(keys, "(list bytes)")))
 
 
 MASK_COUNTERS, MASK_BAD, MASK_ROUTES, MASK_LINES, MASK_DESTS, MASK_AGGS = 1, 2, 4, 8, 16, 32
